@@ -86,7 +86,7 @@ fn main() {
     let chk = Check::new(settings, "");
     match prop.as_str() {
         "C01" | "C02" | "C03" | "C04" | "C05" | "C06" => pipeline_family(chk),
-        "C07" => routing_family(chk),
+        "C07" | "C20" => routing_family(chk),
         "C08" => planted_check(chk),
         "C09" => verdict_check(chk),
         "C10" => determinism_check(chk),
